@@ -10,6 +10,7 @@ import time
 from . import core
 from . import registry
 from . import replay as replay_mod
+from . import meta as meta_mod
 
 VERIF = core.VERIF
 
@@ -44,7 +45,8 @@ class Instance:
         try:
             src = os.path.join(VERIF, "harness", h["src"])
             objs = {}
-            for variant, extra in (("main", []), ("wit", ["WITNESS"])):
+            variants = (("main", []),) if h.get("nowitness") else (("main", []), ("wit", ["WITNESS"]))
+            for variant, extra in variants:
                 tag = self.tag + ("-w" if extra else "")
                 hobj = builder.harness_obj(self.cfg, src, self.defs + extra, tag)
                 xobjs = []
@@ -62,9 +64,10 @@ class Instance:
             func = h.get("func", self.hname)
             self.query = core.Query(self.label, objs["main"], func, self.flags, self.cap, self.rss,
                                     meta={"inst": self})
-            self.wquery = core.Query(self.label + "#witness", objs["wit"], func,
-                                     [f for f in self.flags], self.cap, self.rss, witness=True,
-                                     meta={"inst": self})
+            if not h.get("nowitness"):
+                self.wquery = core.Query(self.label + "#witness", objs["wit"], func,
+                                         [f for f in self.flags], self.cap, self.rss, witness=True,
+                                         meta={"inst": self})
         except core.BuildError as e:
             self.build_error = str(e)
         return self
@@ -116,14 +119,21 @@ def run_instances(insts, workdir, use_cache=True, verbose=True, witness=True):
                 f.result()
             except core.BuildError:
                 pass  # surfaces again per instance
+    for c in set(i.cfg for i in insts if i.h.get("c16")):
+        try:
+            builder.c16_header(c)
+        except core.BuildError as e:
+            for i in insts:
+                if i.h.get("c16") and i.cfg == c:
+                    i.build_error = str(e)
     with cf.ThreadPoolExecutor(16) as ex:
-        list(ex.map(lambda i: i.build(builder), insts))
+        list(ex.map(lambda i: i.build(builder) if not i.build_error else i, insts))
     queries = []
     for i in insts:
         if i.build_error:
             continue
         queries.append(i.query)
-        if witness:
+        if witness and i.wquery is not None:
             queries.append(i.wquery)
 
     def progress(q):
@@ -190,14 +200,14 @@ def conclude(pid, tier, seed, insts, wall, workdir, extra):
         rec = {"harness": i.label, "function": i.h.get("func", i.hname), "verdict": q.verdict,
                "properties_checked": q.nprops, "wall_s": round(q.wall, 2),
                "peak_rss_mb": q.maxrss_mb, "cached_verdict": q.cached,
-               "witness_twin": w.verdict if w else None, "cbmc_flags": i.flags,
+               "witness_twin": (w.verdict if w else "not needed: harness has no assumption"), "cbmc_flags": i.flags,
                "cfg": {"s": "signed char", "u": "unsigned char", "sd": "signed char, assertions on",
                        "ud": "unsigned char, assertions on"}.get(i.cfg, i.cfg),
                "defines": i.defs}
         if q.note:
             rec["note"] = q.note[:300]
         qrecs.append(rec)
-        if q.verdict == "pass" and w and w.verdict == "pass":
+        if q.verdict == "pass" and ((w and w.verdict == "pass") or (w is None and i.h.get("nowitness"))):
             passed += 1
             nontrivial += 1
         elif q.verdict == "pass":
@@ -241,6 +251,12 @@ def conclude(pid, tier, seed, insts, wall, workdir, extra):
     for x in extra.get("inconclusive", []):
         inconclusive.append(x)
 
+    PM = meta_mod.PROP_META.get(pid, {})
+    used = sorted(set(i.hname for i in insts))
+    functions = sorted(set(f for h in used for f in meta_mod.HARNESS_META.get(h, {}).get("fn", [])))
+    bounds = {h: meta_mod.HARNESS_META.get(h, {}).get("bound", "") for h in used}
+    stubs = {h: meta_mod.HARNESS_META[h]["stubs"] for h in used if meta_mod.HARNESS_META.get(h, {}).get("stubs")}
+    solver_s = sum(r["wall_s"] for r in qrecs)
     ev = {
         "property_id": pid, "tier": tier, "seed": seed,
         "level": P.get("level", "model_checking"),
@@ -249,22 +265,29 @@ def conclude(pid, tier, seed, insts, wall, workdir, extra):
             "distinct_nontrivial": nontrivial + extra.get("distinct_nontrivial", 0),
             "rule": "one evaluation = one CBMC query (a harness instance: real functions + symbolic inputs "
                     "within the stated bounds) that returned a verdict; it counts as distinct and non-trivial "
-                    "when its -DWITNESS twin (all assertions dropped, assert(0) at the end) came back "
-                    "FAILED, i.e. assumptions are satisfiable and the end of the harness is reachable",
+                    "when its -DWITNESS twin (assertions only evaluated, assert(0) at the end) came back "
+                    "FAILED, i.e. the assumptions are satisfiable and the end of the harness is reachable "
+                    "(harnesses without any assumption - concrete table walks - need no twin)",
             "samples": [r for r in qrecs][:6],
             "queries": qrecs,
             "queries_passed": passed,
             "queries_failed": len(violations),
             "queries_inconclusive": len(inconclusive),
-            "functions_encoded": P.get("functions", []),
-            "bounds": P.get("bounds", {}).get(tier, P.get("bounds", {})),
-            "outside_claim": P.get("outside", []),
-            "composition": P.get("composition", ""),
-            "solver": "cbmc %s, SAT back end per query in cbmc_flags" % core.tool_version(),
+            "cbmc_properties_checked": sum(r["properties_checked"] or 0 for r in qrecs),
+            "query_wall_s_total": round(solver_s, 1),
+            "functions_encoded": functions,
+            "bounds": bounds,
+            "callee_stubs": stubs,
+            "outside_claim": PM.get("outside", []),
+            "composition": PM.get("composition", ""),
+            "cbmc_checks": core.CBMC_CHECKS,
+            "solver": "%s; SAT back end as in each query's cbmc_flags (cadical)" % core.tool_version(),
+            "replay": "counterexamples are re-executed natively (gcc -fsanitize=address,undefined) against the real units; "
+                      "only reproduced ones are reported",
             "exhaustive": False,
-            "explanation": P.get("explanation", ""),
+            "explanation": PM.get("explanation", "bounded symbolic execution of the real C units; see DESIGN.md section 5 " + pid),
         },
-        "assumptions": P.get("assumptions", []),
+        "assumptions": meta_mod.DEP_ASSUMPTIONS + ["bounds: see coverage.bounds; outside: see coverage.outside_claim"],
         "wall_s": round(wall, 2),
         "violations": len(vio_lines),
     }
